@@ -94,8 +94,11 @@ def backend_tables(b):
     return _TAB[b]
 
 _ENC = {}
-def enc_entry(c):
+_ENCBE = {}
+def enc_entry(c, encoding=None):
     """latexcodec's translation of one character + 'ends in a control word' (measured black-box)"""
+    if encoding:
+        return _enc_entry_for(c, encoding)
     if c not in _ENC:
         be = backend_tables(1)[2]
         x = be.format_str(c)
@@ -109,9 +112,22 @@ def enc_entry(c):
         _ENC[c] = [ord(c), norm(x), cw]
     return _ENC[c]
 
-def enc_table(strings):
+def _enc_entry_for(c, encoding):
+    key = (encoding, c)
+    if key not in _ENC:
+        if encoding not in _ENCBE:
+            _ENCBE[encoding] = _backend(1, encoding=encoding)
+        be = _ENCBE[encoding]
+        x = be.format_str(c); y = be.format_str(c + 'a')
+        if y == x + 'a': cw = 0
+        elif y == x + ' a': cw = 1
+        else: raise RuntimeError('latexcodec encoder (%s) is not of the modelled shape on %r: %r %r' % (encoding, c, x, y))
+        _ENC[key] = [ord(c), norm(x), cw]
+    return _ENC[key]
+
+def enc_table(strings, encoding=None):
     cs = sorted(set(c for s in strings for c in s))
-    return [enc_entry(chr(c)) for c in cs if enc_entry(chr(c))[1:] != [[c], 0]]
+    return [enc_entry(chr(c), encoding) for c in cs if enc_entry(chr(c), encoding)[1:] != [[c], 0]]
 
 # ----------------------------------------------------------------------------------------
 # implementation wrappers.  Case arguments (what gen yields):
@@ -159,6 +175,68 @@ def impl_format_node(a):
         return call_impl(lambda: be.format_href(S(x), S(text), bool(ext)))
     return call_impl(lambda: be.format_protected(S(text)))
 
+ENCODINGS = [None, 'latin-1', 'ascii', 'UTF-8']
+def _history_backend(b, php, ei):
+    kw = {}
+    if ENCODINGS[ei]:
+        kw['encoding'] = ENCODINGS[ei]
+    if b == 2 and php:
+        kw['php_extra'] = True
+    return _backend(b, **kw)
+
+def _fbib(entries, preamble):
+    from pybtex.style import FormattedEntry, FormattedBibliography
+    es = [FormattedEntry(S(k), build(t, 0), S(l)) for (k, l, t) in entries]
+    return FormattedBibliography(es, _Style(), preamble=S(preamble))
+
+def impl_history(a):
+    """ONE back-end object, several uses in a row; every use reported separately"""
+    import io, tempfile, shutil
+    b, php, ei, ops = a
+    be = _history_backend(b, php, ei)
+    tmp = None
+    outs = []
+    try:
+        for op in ops:
+            k = op[0]
+            if k == 0:
+                pre, entries, viafile = op[1], op[2], op[3]
+                if viafile:
+                    def run():
+                        nonlocal tmp
+                        if tmp is None:
+                            tmp = tempfile.mkdtemp(prefix='c09h')
+                        path = os.path.join(tmp, 'out%d' % len(outs))
+                        be.write_to_file(_fbib(entries, pre), path)
+                        with open(path, encoding=be.encoding, newline='') as f:
+                            return f.read()
+                else:
+                    def run():
+                        out = io.StringIO()
+                        be.write_to_stream(_fbib(entries, pre), out)
+                        return out.getvalue()
+                outs.append(call_impl(run))
+            elif k == 1:
+                outs.append(call_impl(lambda: build(op[1], 0).render(be)))
+            elif k == 2:
+                outs.append(call_impl(lambda: be.format_str(S(op[1]))))
+            else:
+                def run():
+                    chunks = []
+                    be.output = chunks.append
+                    be.write_entry(S(op[1]), S(op[2]), S(op[3]))
+                    return ''.join(chunks)
+                outs.append(call_impl(run))
+    finally:
+        if tmp:
+            shutil.rmtree(tmp, ignore_errors=True)
+    return outs
+
+def canon(fn, r):
+    if fn == 7 and isinstance(r, list):
+        return [canon_res(x) for x in r]
+    return canon_res(r)
+
 TREE = 'X'
 FUNCS = {
     1: ('text.render(Backend())', impl_render, ('T', 'N', 'B', TREE)),
@@ -167,6 +245,7 @@ FUNCS = {
     4: ('Text.from_latex', impl_from_latex, ('T', 'S')),
     5: ('Text.from_latex(v).render(latex)', impl_roundtrip, ('T', 'S')),
     6: ('Backend.format_tag/format_href/format_protected', impl_format_node, ('T', 'N', 'N', 'S', 'B', 'S')),
+    7: ('one Backend object used several times (write_to_stream/write_to_file/render/format_str/write_entry)', impl_history, ('T', 'N', 'B', 'N', ('L', 'X'))),
 }
 
 def _decode(v):
@@ -208,6 +287,26 @@ def model_arg(fn, a):
     if fn == 6:
         b, kind, x, ext, text = a
         return [b, kind, x, ext, text, backend_tables(b)[1], enc_table([x]) if b == 1 else []]
+    if fn == 7:
+        from pybtex.textutils import width
+        b, php, ei, ops = a
+        sym, tags, _ = backend_tables(b)
+        be = _history_backend(b, php, ei)
+        strs = []; mops = []
+        for op in ops:
+            if op[0] == 0:
+                reals = [dump(build(t, 0)) for (_, _, t) in op[2]]
+                for r in reals:
+                    tree_strings(r, strs)
+                mops.append([0, op[1], [[k, l, width(S(l)), r] for (k, l, _), r in zip(op[2], reals)]])
+            elif op[0] == 1:
+                r = dump(build(op[1], 0)); tree_strings(r, strs); mops.append([1, r])
+            elif op[0] == 2:
+                strs.append(op[1]); mops.append([2, op[1]])
+            else:
+                mops.append([3, op[1], op[2], op[3]])
+        enc = enc_table(strs, be.encoding) if b == 1 else []
+        return [b, php, norm(be.encoding), sym, tags, enc, mops]
     return a
 
 # ----------------------------------------------------------------------------------------
@@ -489,6 +588,26 @@ def oracle(fn, arg, out):
             if flat(out[1], 0) != depth_profile(v):
                 return 'parsed rich text does not carry the brace depths of %r' % (v,)
         return None
+    if fn == 7:
+        b, php, ei, ops = arg
+        if not isinstance(out, list) or len(out) != len(ops):
+            return 'the history did not produce one result per use'
+        for i, (op, o) in enumerate(zip(ops, out)):
+            if op[0] != 0 or o[0] != 0:
+                continue
+            # the i-th document of a reused back end is the document a fresh back end writes for it alone
+            be = _history_backend(b, php, ei)
+            import io
+            def fresh():
+                st = io.StringIO(); be.write_to_stream(_fbib(op[2], op[1]), st); return st.getvalue()
+            f = call_impl(fresh)
+            if f != o:
+                return 'use %d: the document written by a back end that was used before differs from the document written alone: %r vs %r' % (i, S(o[1])[:200], S(f[1])[:200] if f[0] == 0 else f)
+            if ENCODINGS[ei] in (None, 'UTF-8') and not php:
+                m = oracle(3, [b, php, op[1], op[2]], o)
+                if m:
+                    return 'use %d: %s' % (i, m)
+        return None
     if fn == 3:
         b, php, preamble, entries = arg
         if out[0] != 0:
@@ -549,6 +668,13 @@ def describe(fn, a):
         return {'backend': BACKENDS[a[0]], 'php_extra': bool(a[1]), 'preamble': S(a[2]), 'entries': [(S(k), S(l), show(t)) for (k, l, t) in a[3]]}
     if fn in (4, 5):
         return {'latex': S(a[0])}
+    if fn == 7:
+        def sh(op):
+            if op[0] == 0: return ('write_to_file' if op[3] else 'write_to_stream', S(op[1]), [(S(k), S(l), show(t)) for (k, l, t) in op[2]])
+            if op[0] == 1: return ('render', show(op[1]))
+            if op[0] == 2: return ('format_str', S(op[1]))
+            return ('write_entry', S(op[1]), S(op[2]), S(op[3]))
+        return {'backend': BACKENDS[a[0]], 'php_extra': bool(a[1]), 'encoding': ENCODINGS[a[2]], 'uses of ONE back-end object': [sh(op) for op in a[3]]}
     return {'backend': BACKENDS[a[0]], 'method': ['format_tag', 'format_href', 'format_protected'][min(a[1], 2)], 'name_or_url': S(a[2]), 'external': bool(a[3]), 'text': S(a[4])}
 
 def nontrivial(fn, a, out):
@@ -558,6 +684,8 @@ def nontrivial(fn, a, out):
         return any(chr(c) in META for c in a[1])
     if fn in (4, 5):
         return out[0] == 0 and 123 in a[0]
+    if fn == 7:
+        return sum(1 for op in a[3] if op[0] == 0) >= 2
     return True
 
 # ----------------------------------------------------------------------------------------
@@ -751,6 +879,32 @@ def gen(tier, rng):
             t = [Prot_, lambda *p: Tag_('em', *p), lambda *p: HRef_('u', *p)][k % 3](t)
         for b in range(4):
             yield ('deep_trees', 1, [b, 0, t])
+    # history: ONE back-end object per case, 2-4 uses in a row
+    ascii_str = lambda r, n=6: ''.join(r.choice('abXY12 .&<_*{}#~-') for _ in range(r.randint(0, n)))
+    def rand_entries(r):
+        return [[ascii_str(r, 3) or 'k', ascii_str(r, 4).replace('<', '').replace('&', '').replace('{', '').replace('}', '') or 'L', rand_tree(r, 2, ascii_str)] for _ in range(r.randint(0, 3))]
+    for b in range(4):
+        for php in ((0, 1) if b == 2 else (0,)):
+            for ei in range(len(ENCODINGS)):
+                e1 = [['k1', 'A', Tag_('em', Str_('one'))]]
+                e2 = [['k2', 'Bb', Str_('two & <2>')], ['k3', 'C', Prot_(Str_('three'))]]
+                yield ('history', 7, [b, php, ei, [[0, '', e1, 0], [0, '', e2, 0]]])
+                yield ('history', 7, [b, php, ei, [[0, 'p', e1, 1], [1, Str_('mid~')], [0, '', e2, 1], [0, '', [], 0]]])
+                yield ('history', 7, [b, php, ei, [[1, Str_('a~')], [2, ' b'], [0, '', e2, 0], [3, 'k', 'L', 'text'], [0, '', e1, 1], [2, '~'], [2, ' x']]])
+    for i in range(120 if tier == 'quick' else 3000):
+        b = rng.randrange(4)
+        ops = []
+        for _ in range(rng.randint(2, 4)):
+            r = rng.random()
+            if r < 0.6:
+                ops.append([0, rng.choice(['', '', 'pre']), rand_entries(rng), rng.choice([0, 0, 1])])
+            elif r < 0.75:
+                ops.append([1, rand_tree(rng, 2, ascii_str)])
+            elif r < 0.9:
+                ops.append([2, ascii_str(rng)])
+            elif ops:
+                ops.append([3, ascii_str(rng, 3), ascii_str(rng, 3), ascii_str(rng)])
+        yield ('history', 7, [b, rng.choice([0, 1]), rng.randrange(len(ENCODINGS)), ops])
     # (c) malformed: unknown symbols, odd tag names and URLs, unbalanced strings
     for i in range(nrand // 3):
         t = rand_tree(rng, rng.choice([1, 2, 3]), rand_str, weird=True)
@@ -766,7 +920,7 @@ def gen(tier, rng):
 RULE = ('exhaustive: every tree of <= 3 (thorough: 4) nodes over 7 leaves (strings of each back end\'s metacharacters, empty string, symbols) and 7 node kinds '
         '(Text, Tag em/strong/unknown, HRef +-external, Protected) x 4 back ends x {built through the constructors, parts set directly}; every string of length <= 2 (thorough: 3) over the '
         '29-character alphabet (incl. ;), every sequence of <= 2 (thorough: 3) tokens from the back ends\' own escape outputs and near-misses (&amp; &#38; &x; \\* {\\%} -- ~ ...)  of the property x 4 back ends; every field value of length <= 6 (thorough: 8) over {a { } space}; random: deeper trees with Unicode and whitespace, whole documents, '
-        'LaTeX values with escapes, nesting to depth 200; malformed: unknown symbols, odd tag names and URLs, unbalanced values. '
+        'LaTeX values with escapes, nesting to depth 200; history: ONE back-end object per case writing 2-4 documents in a row (write_to_stream / write_to_file), interleaved with render / format_str / write_entry on the same object, encodings default/latin-1/ascii/UTF-8, each use compared separately; malformed: unknown symbols, odd tag names and URLs, unbalanced values. '
         'distinct = distinct (function, argument); non-trivial = a markup node with non-empty output / a string containing a metacharacter / a value with a brace group.')
 EXHAUSTIVE = {'quick': 'all trees of <= 3 nodes (7 leaves, 7 node kinds) x 4 back ends x 2 construction modes; all strings of length <= 2 over 28 characters x 4 back ends; all values of length <= 6 over {a,{,},space}',
               'thorough': 'all trees of <= 3 nodes plus a reduced 4-node family x 4 back ends x 2 construction modes; all strings of length <= 3 over 28 characters x 4 back ends; all values of length <= 8 over {a,{,},space}'}
